@@ -38,7 +38,7 @@ import ledger_common as L
 
 TIERS = {
     # batches: (cases, scale)
-    "quick": dict(fold_cfg="MC_ReadsFold_quick.cfg", batches=[(84, "1"), (16, "2p64")], reads=34, tplruns=6, length=12,
+    "quick": dict(fold_cfg="MC_ReadsFold_quick.cfg", batches=[(84, "1"), (16, "2p64"), (48, "2p53")], reads=34, tplruns=6, length=12,
                   chunks=8, tlc_timeout=900),
     "thorough": dict(fold_cfg="MC_ReadsFold_thorough.cfg", batches=[(1100, "1"), (200, "2p53"), (200, "1e30")], reads=34,
                      tplruns=6, length=12, chunks=15, tlc_timeout=5400),
